@@ -4,7 +4,7 @@ import random
 from harness import common, sched
 
 FAMILY = 'sched+emit'
-RULE = ('two streams.  rows: random Stores (depth<=4) with random emit flags, unset values and a custom serializer, '
+RULE = ('streams.  rows: random Stores (depth<=4) with random emit flags, unset values and a custom serializer, '
         'optionally a store_schema-style config with branch-level _emit and set_emit_value calls: emit_data() compared with '
         'Model/Emit.v.  times: as C01 with emit_step in {1, 2, 3, 0.5, 1.5}; every call of a user Emitter is recorded; rows are compared '
         'with the model rows (time, all accumulators). Non-trivial: >=2 invocations; distinct by term.')
@@ -38,12 +38,17 @@ def generate(seed, tier, enlarged=False):
     from harness import ramalias
     for i in range(n // 10):
         cases.append(ramalias.gen_case(rng))
+    # who may change an emit flag (Model/EmitFlags.v)
+    from harness import flags
+    cases += flags.corpus()
+    for i in range(n // 4):
+        cases.append(flags.gen_case(rng))
     return cases
 
 
 def run(cases, tier='quick', seed=0):
     """three streams: scheduler traces and row contents (each with its own correspondence layer), RAM snapshots"""
-    from harness import emit, ramalias
+    from harness import emit, ramalias, flags
 
     class Ram:
         __name__ = 'harness.ramalias'
@@ -55,11 +60,15 @@ def run(cases, tier='quick', seed=0):
     return common.merge_streams(cases, [
         (lambda c: c['kind'] == 'sched', lambda cs: sched.run_family(me, cs, seed, PROPS)),
         (lambda c: c['kind'] == 'emit', lambda cs: common.generic_run(emit, cs, seed, shard=200)),
-        (lambda c: c['kind'] == 'ramalias', lambda cs: common.generic_run(Ram, cs, seed, shard=200))])
+        (lambda c: c['kind'] == 'ramalias', lambda cs: common.generic_run(Ram, cs, seed, shard=200)),
+        (lambda c: c['kind'] == 'flags', lambda cs: common.generic_run(flags, cs, seed, shard=200))])
 
 
 def model_output(case, ob):
     if case['kind'] == 'emit':
         from harness import emit
         return common.coq_eval('EMIT', emit.IMPORTS, 'model_out %s' % emit.render(case, ob))[:3000]
+    if case['kind'] == 'flags':
+        from harness import flags
+        return common.coq_eval('FLAGS', flags.IMPORTS, 'model_out %s' % flags.render(case, ob))[:3000]
     return sched.model_output(case, ob)
